@@ -1,22 +1,31 @@
 (* C01 — Generated legal moves are exactly the moves the rules of chess allow.
    The rule side is spec/Chess.v (legal, pseudo_dests, in_check, castle_legal); abs b is the mailbox position of board b.
-   PROVED (for every board with consistent masks — any occupancy — and every square / move):
-   * C01_pseudo_legal_masks: the destination mask the generator computes for the piece on s (knight / king tables, pawn
-     pushes, double pushes and captures incl. the en-passant square, slider rays truncated at the nearest blocker) contains
-     exactly the rule's pseudo-legal destinations; the slider case rests on a complete sweep over all subsets of all
-     512 rays lifted to all 2^64 occupancies (C01_ray_truncation);
-   * C01_king_safety_test: the generator's test "check mask after the move is empty" is exactly "the mover's king is not
-     attacked in the rule-defined successor", for every pseudo-legal move incl. en passant (victim removed);
-   * C01_pin_shortcut: (rule level) while not in check, a non-king, non-en-passant move of an unpinned piece cannot expose
-     the king — the justification of the moves the generator accepts without running the test; the generator's "in check"
-     and "pinned" conditions are the rule's by C05;
-   * C01_square_attacked: the attack test used for the castling path is the rule's attacked predicate.
-   PARTIAL: the assembly of these facts into "In m (legal_moves b) <-> legal (abs b) m", absence of duplicates and the
-   castling query are decided by the differential run (legal-move sets and castling query on every explored position incl.
-   exhaustive slider / castling families, en-passant discovered-check and boxed-king families, and the mailbox cross-check). *)
+   PROVED, for EVERY board with consistent masks and current check/pin masks whose mailbox position is valid
+   (one king per side, opponent not in check, held rights have king and rook at home, consistent en-passant square) —
+   i.e. for every valid position, reachable or not, with no bound on anything:
+   * C01_exact: get_legal_moves returns a list l (never the Panic outcome) and a move is in l iff it is legal under the
+     rules: piece movement and captures, single and double pawn pushes, en passant, all four promotion choices, both
+     castlings, and never a move that leaves or puts the mover's own king in check;
+   * C01_no_duplicates: no move is listed twice;
+   * C01_castling_query: the separately queryable castling availability names exactly the legal castling moves.
+   Ingredients, each proved for every board with consistent masks (all 2^64 occupancies): C01_pseudo_legal_masks
+   (destination masks = rule's pseudo-legal destinations; sliders by a complete sweep over all subsets of all 512 rays
+   lifted to all occupancies, C01_ray_truncation), C01_king_safety_test (check mask after the move blank <-> king not
+   attacked in the rule-defined successor, incl. en passant), C01_pin_shortcut (rule-level justification of the moves
+   accepted without the test), C01_square_attacked, C01_in_check_flag.
+   The model is tied to the code by the differential run (legal-move sets, duplicates, castling query on every explored
+   position incl. exhaustive slider / castling families, en-passant discovered-check and boxed-king families). *)
 Require Import LC.model.Prims LC.model.Board LC.spec.Chess LC.spec.Geometry LC.proofs.MaskInv LC.proofs.C05Proofs
-  LC.proofs.Rays LC.proofs.Pseudo LC.proofs.Safety LC.proofs.PinLemma LC.proofs.C01a.
+  LC.proofs.Rays LC.proofs.Pseudo LC.proofs.Safety LC.proofs.PinLemma LC.proofs.C01a LC.proofs.C01b.
 Open Scope N_scope.
+Theorem C01_exact : forall K b, MaskInv b -> DerivedInv b -> valid (abs b) = true ->
+  exists l, legal_moves K b = Ok l /\ forall mv, In mv l <-> legal (abs b) mv = true.
+Proof. exact legal_moves_exact. Qed.
+Theorem C01_no_duplicates : forall K b l, MaskInv b -> DerivedInv b -> valid (abs b) = true -> legal_moves K b = Ok l -> NoDup l.
+Proof. intros K b l I D V. exact (legal_moves_nodup K b I D V l). Qed.
+Theorem C01_castling_query : forall b, MaskInv b -> DerivedInv b -> valid (abs b) = true ->
+  exists r, castling_available b None = Ok r /\ has_kingside r = legal (abs b) CastleK /\ has_queenside r = legal (abs b) CastleQ.
+Proof. exact castling_query. Qed.
 Theorem C01_ray_truncation : forall b s i, MaskInv b -> s < 64 -> (i < 8)%nat ->
   truncate_ray b s i = Ok (of_list (reach (abs b) s (dir i))).
 Proof. exact truncate_ray_spec. Qed.
